@@ -43,6 +43,15 @@ class RateMatrix(MatrixData):
             
            
         
+    def set_data(self, data):
+        """Sets the data of the rate matrix
+        
+        The matrix keeps its own array of real numbers (see the constructor)
+        
+        """
+        self.data = numpy.array(data, dtype=numpy.float64)
+
+
     def set_rate(self, pos, value):
         """ Sets a value of a rate between two states
         
